@@ -12,7 +12,7 @@
    resolve_tests_dependencies(scheduled, all)            resolve_tests_dependencies : result (list (path * list path))
                                                          (test.resolved_dependencies of every scheduled test, as paths)
 
-   Not modelled: callable dependencies (`depends_on(lambda test: ...)`): DESIGN.md section 4.1, tt_deps is the path form.
+   Callable dependencies (`depends_on(lambda test: ...)`) are in Model/DepsPred.v, which produces the path form tt_deps used here.
    Termination of the Python recursion: ref_tests grows by one *new* path of `all_tests` at every level, hence the fuel
    S (length all) is enough (Proofs/DepsP.v: resolve_fuel_enough). *)
 From Coq Require Import List Arith Bool.
